@@ -34,6 +34,9 @@ INT_ALPHA = {
     "<u2": [60000, 65535, 40000, 2],
     "<i4": [2147483647, -2147483648, 2000000000, 7],
     "<u4": [4294967295, 4000000000, 3],
+    # 64-bit integers whose SQUARES exceed the 64-bit range (sums of squares must be formed in floating point)
+    "<i8": [3100000000, -3100000000, 4000000000, 5, -7],
+    "<u8": [3100000000, 4000000000, 5],
 }
 PROD_ALPHA = {
     "|i1": [1, -1, 2, -3, 10, 100],
@@ -42,6 +45,8 @@ PROD_ALPHA = {
     "<u2": [1, 2, 300, 1000],
     "<i4": [1, -1, 3, 70000],
     "<u4": [1, 2, 70000],
+    "<i8": [1, -1, 3, 70000],
+    "<u8": [1, 2, 70000],
 }
 LIMITS = {k: (np.iinfo(np.dtype(k)).min, np.iinfo(np.dtype(k)).max) for k in INT_ALPHA}
 
